@@ -26,9 +26,10 @@ type St struct {
 	CondTrue bool     `json:"cond_true,omitempty"` // has a condition that holds
 	Nested   *Gr      `json:"nested,omitempty"`
 	Allow    bool     `json:"allow,omitempty"` // allow_failure of a nesting stage
-	// ReuseOf names (by id) an earlier nesting stage of the same pipeline on which this stage depends:
-	// this stage schedules the very same pipeline object again. Its stages are already resolved by then,
-	// so the second use resolves at once, with the same verdict.
+	// ReuseOf names (by id) another nesting stage of the same pipeline: this stage schedules the very same
+	// pipeline object again. The pipeline's stages run once: when this stage depends on the first use they are
+	// already resolved and the second use resolves at once with the same verdict; when both uses are in
+	// flight together, both end when the one pipeline is resolved.
 	ReuseOf string `json:"reuse_of,omitempty"`
 }
 
